@@ -102,6 +102,26 @@ def run_case(arg):
             bad("C13:numpy:chain:identical", f"u={u}: identical spectra gave shift {np.asarray(c3).tolist()}, aligned image error {np.abs(img3 - a).max():.3g}")
         if not (np.array_equal(Fa, Fa0) and np.array_equal(Fb, Fb0) and np.array_equal(a, a0) and np.array_equal(b, b0)):
             bad("C13:numpy:inputs-modified", f"u={u}: the estimator modified its input arrays")
+        # every combination of the input / output options on the SAME arrays: right answer, right aligned image,
+        # inputs untouched, and the next plain call still right
+        for fi in (False, True):
+            for rsi, fo in ((False, False), (True, False), (True, True)):
+                args = (Fa, Fb) if fi else (a, b)
+                res = cross_correlation_shift(*args, upsample_factor=u, fft_input=fi, return_shifted_image=rsi, fft_output=fo)
+                sh = np.asarray(res[0] if rsi else res, float)
+                opt = f"fft_input={fi} return_shifted_image={rsi} fft_output={fo}"
+                if not same_shift(sh, est, shape, 1e-6):
+                    bad("C13:numpy:options:shift", f"u={u} {opt}: returned {sh.tolist()}, applied {est.tolist()}")
+                elif rsi:
+                    al = np.fft.ifft2(res[1]).real if fo else np.asarray(res[1])
+                    if al.shape != a.shape or not np.allclose(al, a, atol=1e-6):
+                        bad("C13:numpy:options:aligned-image", f"u={u} {opt}: aligned image differs from the reference")
+                if not (np.array_equal(Fa, Fa0) and np.array_equal(Fb, Fb0) and np.array_equal(a, a0) and np.array_equal(b, b0)):
+                    bad("C13:numpy:inputs-modified", f"u={u} {opt}: the estimator modified its input arrays")
+                    Fa, Fb, a, b = Fa0.copy(), Fb0.copy(), a0.copy(), b0.copy()
+                again = np.asarray(cross_correlation_shift(*args, upsample_factor=u, fft_input=fi), float)
+                if not same_shift(again, est, shape, 1e-6):
+                    bad("C13:numpy:chain:repeat", f"u={u} after {opt}: the next call on the same arrays gave {again.tolist()}, applied {est.tolist()}")
         ta, tb = torch.tensor(a), torch.tensor(b)
         ta0, tb0 = ta.clone(), tb.clone()
         t1 = cross_correlation_shift_torch(ta, tb, upsample_factor=max(u, 2)).numpy()
